@@ -24,7 +24,7 @@ ENTRY int verif_primitive_block(const char* data, unsigned len, int read_meta, u
     try {
         PBFPrimitiveBlockDecoder decoder{protozero::data_view{data, len}, osmium::osm_entity_bits::all, read_meta ? osmium::io::read_meta::yes : osmium::io::read_meta::no};
         osmium::memory::Buffer b = decoder();
-        Dump d{out, cap}; d.buffer(b); *outlen = d.len;
+        Dump d{out, cap}; d.buffer_exact(b); *outlen = d.len;
         return d.overflow ? 9 : 0;
     } catch (const osmium::pbf_error&) { return 1; } catch (const protozero::exception&) { return 2; } catch (const std::exception&) { return 3; }
 }
